@@ -702,7 +702,7 @@ theorem accepted_literals_never_collide (h : Hasher) (s₁ s₂ : String) (t₁ 
 /-- not vacuous: the last representable instant, written with the largest fraction and the most negative offset, is accepted -/
 example : (parseTime "9999-12-31T23:59:59.999999999-23:59").isSome = true := by decide
 
-/-! ### towards the other composition (`civilFromDays ∘ daysFromCivil = id` on valid dates - not yet proved as a whole) -/
+/-! ### towards the other composition (`civilFromDays ∘ daysFromCivil = id` on valid dates: `date_of_days`) -/
 
 /-- the year of the era is recovered from the day of the era the parser computes from it: for every year of the era and every day
     of that (March-based) year, day 365 only where the year has one. `omega` needs the 4 x 5 x 2 split on the three quotients. -/
@@ -715,5 +715,99 @@ theorem yoe_recovered (yoe doy doe : Int) (h0 : 0 ≤ yoe ∧ yoe ≤ 399) (h1 :
   have hf : doe / 36524 = 0 ∨ doe / 36524 = 1 ∨ doe / 36524 = 2 ∨ doe / 36524 = 3 ∨ doe / 36524 = 4 := by omega
   have hg : doe / 146096 = 0 ∨ doe / 146096 = 1 := by omega
   rcases hd with hd | hd | hd | hd <;> rcases hf with hf | hf | hf | hf | hf <;> rcases hg with hg | hg <;> omega
+
+/-- the core of the converse, over the parser's intermediate quantities -/
+theorem civil_of_era_parts (era yoe mp dI : Int) (h0 : 0 ≤ yoe ∧ yoe ≤ 399) (hmp : 0 ≤ mp ∧ mp ≤ 11) (hd1 : 1 ≤ dI)
+    (hlen : dI ≤ (153 * (mp + 1) + 2) / 5 - (153 * mp + 2) / 5)
+    (h2 : (153 * mp + 2) / 5 + dI - 1 ≤ 364 ∨
+      ((153 * mp + 2) / 5 + dI - 1 = 365 ∧ (yoe + 1) % 4 = 0 ∧ ((yoe + 1) % 100 ≠ 0 ∨ yoe = 399))) :
+    civilFromDays (era * 146097 + (yoe * 365 + yoe / 4 - yoe / 100 + ((153 * mp + 2) / 5 + dI - 1)) - 719468) =
+      (if (if mp < 10 then mp + 3 else mp - 9) ≤ 2 then yoe + era * 400 + 1 else yoe + era * 400,
+       (if mp < 10 then mp + 3 else mp - 9).toNat, dI.toNat) := by
+  generalize hdoy : (153 * mp + 2) / 5 + dI - 1 = doy at *
+  have hdoy0 : 0 ≤ doy := by omega
+  generalize hdoe : yoe * 365 + yoe / 4 - yoe / 100 + doy = doe
+  have hy := yoe_recovered yoe doy doe h0 hdoy0 h2 hdoe.symm
+  have hr : 0 ≤ doe ∧ doe < 146097 := by
+    have hd : yoe / 100 = 0 ∨ yoe / 100 = 1 ∨ yoe / 100 = 2 ∨ yoe / 100 = 3 := by omega
+    rcases hd with hd | hd | hd | hd <;> omega
+  unfold civilFromDays
+  simp only
+  have e1 : era * 146097 + doe - 719468 + 719468 = era * 146097 + doe := by omega
+  have e2 : (era * 146097 + doe) / 146097 = era := by omega
+  have e3 : era * 146097 + doe - era * 146097 = doe := by omega
+  rw [e1, e2, e3, hy]
+  have e4 : doe - (365 * yoe + yoe / 4 - yoe / 100) = doy := by omega
+  rw [e4]
+  have e5 : (5 * doy + 2) / 153 = mp := by omega
+  rw [e5]
+  have e6 : doy - (153 * mp + 2) / 5 + 1 = dI := by omega
+  rw [e6]
+
+/-- the other composition: the day number the parser computes for a valid date is rendered as that date -/
+theorem date_of_days (y m d : Nat) (hm : 1 ≤ m ∧ m ≤ 12) (hd : 1 ≤ d ∧ d ≤ daysIn m y) :
+    civilFromDays (daysFromCivil y m d) = ((y : Int), m, d) := by
+  by_cases hm2 : m ≤ 2
+  · have hgt : ¬ m > 2 := by omega
+    have hlen : (d : Int) ≤ (153 * (((m : Int) + 9) + 1) + 2) / 5 - (153 * ((m : Int) + 9) + 2) / 5 := by
+      have hm' : m = 1 ∨ m = 2 := by omega
+      rcases hm' with h | h <;> subst h <;> simp [daysIn] at hd <;> (try split at hd) <;> omega
+    have h2 : (153 * ((m : Int) + 9) + 2) / 5 + (d : Int) - 1 ≤ 364 ∨
+        ((153 * ((m : Int) + 9) + 2) / 5 + (d : Int) - 1 = 365 ∧
+          (((y : Int) - 1 - ((y : Int) - 1) / 400 * 400) + 1) % 4 = 0 ∧
+          ((((y : Int) - 1 - ((y : Int) - 1) / 400 * 400) + 1) % 100 ≠ 0 ∨ ((y : Int) - 1 - ((y : Int) - 1) / 400 * 400) = 399)) := by
+      have hm' : m = 1 ∨ m = 2 := by omega
+      rcases hm' with h | h <;> subst h
+      · simp [daysIn] at hd; omega
+      · simp only [daysIn, if_true] at hd
+        obtain ⟨hd1, hd2⟩ := hd
+        by_cases hl : isLeap y = true
+        · rw [if_pos hl] at hd2
+          unfold isLeap at hl
+          simp at hl
+          omega
+        · rw [if_neg hl] at hd2
+          omega
+    unfold daysFromCivil
+    simp only [hm2, hgt, if_true, if_false]
+    rw [civil_of_era_parts (((y : Int) - 1) / 400) ((y : Int) - 1 - ((y : Int) - 1) / 400 * 400) ((m : Int) + 9) (d : Int)
+      (by omega) (by omega) (by omega) hlen h2]
+    have a1 : ¬ ((m : Int) + 9 < 10) := by omega
+    have a2 : (m : Int) + 9 - 9 ≤ 2 := by omega
+    simp only [if_neg a1, if_pos a2]
+    refine Prod.ext ?_ (Prod.ext ?_ ?_) <;> simp <;> omega
+  · have hgt : m > 2 := by omega
+    have hm' : m = 3 ∨ m = 4 ∨ m = 5 ∨ m = 6 ∨ m = 7 ∨ m = 8 ∨ m = 9 ∨ m = 10 ∨ m = 11 ∨ m = 12 := by omega
+    have hlen : (d : Int) ≤ (153 * (((m : Int) - 3) + 1) + 2) / 5 - (153 * ((m : Int) - 3) + 2) / 5 := by
+      rcases hm' with h | h | h | h | h | h | h | h | h | h <;> subst h <;> simp [daysIn] at hd <;> omega
+    have h2 : (153 * ((m : Int) - 3) + 2) / 5 + (d : Int) - 1 ≤ 364 ∨
+        ((153 * ((m : Int) - 3) + 2) / 5 + (d : Int) - 1 = 365 ∧
+          (((y : Int) - (y : Int) / 400 * 400) + 1) % 4 = 0 ∧
+          ((((y : Int) - (y : Int) / 400 * 400) + 1) % 100 ≠ 0 ∨ ((y : Int) - (y : Int) / 400 * 400) = 399)) := by
+      left
+      rcases hm' with h | h | h | h | h | h | h | h | h | h <;> subst h <;> simp [daysIn] at hd <;> omega
+    unfold daysFromCivil
+    simp only [hm2, hgt, if_true, if_false]
+    rw [civil_of_era_parts ((y : Int) / 400) ((y : Int) - (y : Int) / 400 * 400) ((m : Int) - 3) (d : Int)
+      (by omega) (by omega) (by omega) hlen h2]
+    by_cases a1 : (m : Int) - 3 < 10
+    · have a2 : ¬ ((m : Int) - 3 + 3 ≤ 2) := by omega
+      simp only [if_pos a1, if_neg a2]
+      refine Prod.ext ?_ (Prod.ext ?_ ?_) <;> simp <;> omega
+    · omega
+
+/-- so two different valid dates never have the same day number: the day count behind `time_enc` is injective on the dates the parser
+    accepts (`dateFields` checks exactly `1 ≤ m ≤ 12`, `1 ≤ d ≤ daysIn m y`) -/
+theorem days_injective_on_valid_dates (y m d y' m' d' : Nat) (hm : 1 ≤ m ∧ m ≤ 12) (hd : 1 ≤ d ∧ d ≤ daysIn m y)
+    (hm' : 1 ≤ m' ∧ m' ≤ 12) (hd' : 1 ≤ d' ∧ d' ≤ daysIn m' y') (h : daysFromCivil y m d = daysFromCivil y' m' d') :
+    y = y' ∧ m = m' ∧ d = d' := by
+  have a := date_of_days y m d hm hd
+  have b := date_of_days y' m' d' hm' hd'
+  rw [h, b] at a
+  simp only [Prod.mk.injEq] at a
+  omega
+
+/-- not vacuous: a leap day is a valid date, and the day after 2024-02-29 is not 2024-02-30 -/
+example : (1 ≤ 29 ∧ 29 ≤ daysIn 2 2024) ∧ ¬ (30 ≤ daysIn 2 2024) ∧ civilFromDays (daysFromCivil 2024 2 29 + 1) = (2024, 3, 1) := by decide
 
 end Gsp.Props.C04
